@@ -229,11 +229,27 @@ def body_adds(nadds, b1, u1, c2, p2, b2, c3, p3, b3):
         db.set_unknown_environment_spec(UNK['environments'])
         db.set_unknown_specials_spec(UNK['specials'])
         model.unk = dict(UNK)
+    # intermediate queries are only *recorded* here and compared at the end of the history (comparing between symbolic
+    # decisions makes the path tree blow up): a stale cache filled by an early query must not change later answers
+    early = []
+
+    def probe():
+        early.append((db.test_for_specials('a--b', 1), model.longest_specials('a--b', 1),
+                      db.get_macro_spec('m'), model.lookup('macros', 'm')))
     prev = do_add(db, model, 0, 0, 0, b1, 'A')
+    probe()
     if nadds >= 2:
         prev = do_add(db, model, 1, c2, p2, b2, prev)
+        probe()
     if nadds >= 3:
         prev = do_add(db, model, 2, c3, p3, b3, prev)
+    for got_s, exp_s, got_m, exp_m in early:
+        if exp_s is None:
+            require(got_s is None, 'intermediate database: test_for_specials found specials where none is defined')
+        else:
+            require(got_s is not None and got_s.specials_chars == exp_s.specials_chars,
+                    'intermediate database: test_for_specials did not return the longest match')
+        require(got_m is exp_m, 'intermediate database: macro lookup is not the first definition in category order')
     check_db(db, model, 'after the additions')
     db.freeze()
     check_frozen(db, 'after freeze')
